@@ -15,6 +15,7 @@ import (
 	"github.com/jacobsa/crypto/cmac"
 
 	"verifharness/internal/cases"
+	"verifharness/internal/collide"
 	"verifharness/internal/cq"
 	"verifharness/internal/framefmt"
 	"verifharness/internal/micforge"
@@ -412,6 +413,67 @@ func fanOut(s *cases.Set, r *cq.RNG, v lorawan.MACVersion, i int) {
 	}
 }
 
+// collidingKeys: "a different key must give a different result", for keys that differ but agree under a cheap
+// digest (internal/collide: CRC-32 with three polynomials, Adler-32 / byte sum, xor-folds, FNV-1a, shared prefix /
+// suffix). One frame; session A and session B differ in exactly one key (K vs K'). Back to back: exchange under A,
+// validation of A's bytes under B (the specification decides: false where that key enters the MIC), exchange under B
+// (the MIC must be the reference MIC under K'), validation of A's bytes under A, exchange under A again; then the
+// same with the roles of K and K' swapped on a fresh frame. The exchanges are remembered (concurrent pass).
+func collidingKeys(s *cases.Set, r *cq.RNG, v lorawan.MACVersion, field, i int) {
+	base := key(r)
+	pairs := collide.For(base)
+	if fp, ok := collide.FNV(r.U64); ok {
+		pairs = append(pairs, fp)
+	}
+	step()
+	quiet = true
+	defer func() { quiet = false }()
+	fname := []string{"fNwkSIntKey", "sNwkSIntKey", "nwkSEncKey", "appSKey"}[field]
+	for pi, pr := range pairs {
+		if !collide.Check(pr) {
+			s.Fail(cases.GoFail{Key: "harness:collide:" + pr.Name, What: "internal/collide produced a pair that does not collide (harness defect)", Replay: map[string]interface{}{"k": hx(pr.K[:]), "k2": hx(pr.K2[:])}})
+			continue
+		}
+		for order := 0; order < 2; order++ {
+			ka, kb := lorawan.AES128Key(pr.K), lorawan.AES128Key(pr.K2)
+			if order == 1 {
+				ka, kb = kb, ka
+			}
+			mts := []lorawan.MType{lorawan.UnconfirmedDataUp, lorawan.UnconfirmedDataDown, lorawan.ConfirmedDataUp, lorawan.ConfirmedDataDown}
+			o := framefmt.Opt{MType: mts[(i+pi+order)%4], Port: 1 + r.Intn(200), FRMLen: 1 + r.Intn(20), FOptsBytes: r.Intn(6), FCntHigh: pi%2 == 0}
+			if field == 2 && pi%2 == 0 {
+				o.Port, o.FRMAsMAC, o.FOptsBytes = 0, true, 0
+			}
+			p := dataFrame(r, o)
+			m := p.MACPayload.(*lorawan.MACPayload)
+			up, full := isUp(p.MHDR.MType), m.FHDR.FCnt
+			A := keys{key(r), key(r), key(r), key(r)}
+			B := A
+			switch field {
+			case 0:
+				A.f, B.f = ka, kb
+			case 1:
+				A.s, B.s = ka, kb
+			case 2:
+				A.e, B.e = ka, kb
+			default:
+				A.a, B.a = ka, kb
+			}
+			prm := params{counter(r), r.Byte(), r.Byte()}
+			kind := "key-collide-" + pr.Name
+			tag := fmt.Sprintf("collide:%s:%s:order%d:", pr.Name, fname, order)
+			b := pipeCase(s, clone(p), v, A, prm, kind, tag+"A:")
+			if b == nil {
+				continue
+			}
+			tamperCase(s, b, v, up, B, prm, full, kind, "key-collide:"+pr.Name+":"+fname+":validate-A's-frame-under-B")
+			pipeCase(s, clone(p), v, B, prm, kind, tag+"B:")
+			tamperCase(s, b, v, up, A, prm, full, kind, "key-collide:"+pr.Name+":"+fname+":validate-A's-frame-under-A-again")
+			pipeCase(s, clone(p), v, A, prm, kind, tag+"A-again:")
+		}
+	}
+}
+
 // withMType: the same frame content sent in the other direction / as the other confirmation type
 func withMType(p lorawan.PHYPayload, mt lorawan.MType) lorawan.PHYPayload {
 	q := clone(p)
@@ -525,7 +587,7 @@ func main() {
 	r := cq.NewRNG(seed)
 	nr = cq.NewRNG(seed ^ 0x9e3779b97f4a7c15)
 	s := cases.New("C05", dir, "LW.Corr.C05",
-		"RFC 4493 examples first; corpus: FPort 0 with empty FRMPayload (C05-1), a frame whose MHDR RFU bit is flipped (C05-2). Pipeline: data frames with MAC commands in FOpts (0..15 bytes) and application payload (block-boundary lengths), commands on port 0, FOpts only, empty payloads, raw bytes; 4 MTypes, both MAC versions, FCnt above 2^16 in 70%, random keys (1.0: one network key; in a third of the sessions SNwkSIntKey = FNwkSIntKey, all network keys equal, all-zero keys or zero integrity keys), ConfFCnt/txDR/txCh random; the bytes the implementation sends are also given to the model's receiver (a specification-conformant peer must recover the content). Special MIC values: exchanges of application frames CONSTRUCTED (internal/micforge) so that the MIC of the serialised frame is 00000000, ffffffff, 00000001 (both directions, both versions). MHDR Major drawn from 0..3; in a quarter of the exchanges the FRMPayload / FOpts elements are of a foreign Payload type (framefmt.Opaque, mixed [Opaque, DataPayload], [MAC commands, Opaque] in FOpts, a clocksync.Command on port 202). Fan-out: one FRMPayload slice and one FOpts slice kept by the caller and put into three frames (FCnt + 1, other DevAddr, other keys) exchanged in turn, printed from the original objects, slices unchanged afterwards; every exchange is also repeated from 8 goroutines at once. History: unrelated library calls (internal/noise) before every compared call; direction families run back to back (one frame content exchanged as downlink, uplink, confirmed downlink, confirmed uplink, uplink, downlink); every pipeline call is repeated twice later in the process (reverse and same order) and must give its first result. Tampering: for a subset of frames EVERY single-bit flip of the serialised frame (the receiver extends the 16 bits on the wire with its own upper 16 bits), and every single-parameter mismatch: each key with one bit flipped, FCnt +/- 2^16, ConfFCnt + 1 and + 2^16, txDR, txCh, validation with the other direction's function, the other MAC version. Every case distinct by construction.")
+		"RFC 4493 examples first; corpus: FPort 0 with empty FRMPayload (C05-1), a frame whose MHDR RFU bit is flipped (C05-2). Pipeline: data frames with MAC commands in FOpts (0..15 bytes) and application payload (block-boundary lengths), commands on port 0, FOpts only, empty payloads, raw bytes; 4 MTypes, both MAC versions, FCnt above 2^16 in 70%, random keys (1.0: one network key; in a third of the sessions SNwkSIntKey = FNwkSIntKey, all network keys equal, all-zero keys or zero integrity keys), ConfFCnt/txDR/txCh random; the bytes the implementation sends are also given to the model's receiver (a specification-conformant peer must recover the content). Special MIC values: exchanges of application frames CONSTRUCTED (internal/micforge) so that the MIC of the serialised frame is 00000000, ffffffff, 00000001 (both directions, both versions). MHDR Major drawn from 0..3; in a quarter of the exchanges the FRMPayload / FOpts elements are of a foreign Payload type (framefmt.Opaque, mixed [Opaque, DataPayload], [MAC commands, Opaque] in FOpts, a clocksync.Command on port 202). Colliding keys (internal/collide): sessions that differ in exactly one key K vs K' where K' != K agrees with K under CRC-32 (IEEE + Castagnoli + Koopman at once), Adler-32 / byte sum, xor-folds to 8/4/2/1 bytes, FNV-1a 32, first 15 / first 8 / last 8 bytes - for each of the four session keys: exchange under K, validation of that frame under K', exchange under K', validation and exchange under K again, and the reverse order on a fresh frame, all back to back and in the concurrent pass. Fan-out: one FRMPayload slice and one FOpts slice kept by the caller and put into three frames (FCnt + 1, other DevAddr, other keys) exchanged in turn, printed from the original objects, slices unchanged afterwards; every exchange is also repeated from 8 goroutines at once. History: unrelated library calls (internal/noise) before every compared call; direction families run back to back (one frame content exchanged as downlink, uplink, confirmed downlink, confirmed uplink, uplink, downlink); every pipeline call is repeated twice later in the process (reverse and same order) and must give its first result. Tampering: for a subset of frames EVERY single-bit flip of the serialised frame (the receiver extends the 16 bits on the wire with its own upper 16 bits), and every single-parameter mismatch: each key with one bit flipped, FCnt +/- 2^16, ConfFCnt + 1 and + 2^16, txDR, txCh, validation with the other direction's function, the other MAC version. Every case distinct by construction.")
 	s.ShardSize = 200
 	nPipe, nFlipFrames := 160, 24
 	if thorough {
@@ -586,6 +648,15 @@ func main() {
 					forgedExchange(s, r, up, v, lorawan.MIC{0, 0, 0, 1}, "00000001")
 				}
 			}
+		}
+	}
+	{
+		nf := 4
+		if thorough {
+			nf = 60
+		}
+		for i := 0; i < nf; i++ {
+			collidingKeys(s, r, vers[(i/4+i)%2], i%4, i)
 		}
 	}
 	// ---- pipeline + tampering ----
